@@ -183,6 +183,12 @@ func (win Window) Print(segs ...Segment) (col int, row int) {
 				Character: char,
 				Style:     seg.Style,
 			}
+			if col > 0 && col+char.Width > cols {
+				// No room left for this cluster, it starts the next
+				// row instead
+				row += 1
+				col = 0
+			}
 			win.SetCell(col, row, cell)
 			col += char.Width
 			if col >= cols {
@@ -309,6 +315,12 @@ func (win Window) Wrap(segs ...Segment) (col int, row int) {
 				cell := Cell{
 					Character: char,
 					Style:     seg.Style,
+				}
+				if col > 0 && col+char.Width > cols {
+					// No room left for this cluster, it starts the
+					// next row instead
+					row += 1
+					col = 0
 				}
 				win.SetCell(col, row, cell)
 				col += char.Width
